@@ -189,7 +189,7 @@ func init() {
 		x := e.input(concStr(e, a[0]), -1, 64)
 		n := e.concInt(a[1])
 		if x.Op == OpConst {
-			if int(x.Val) >= n {
+			if x.Val >= uint64(n) {
 				e.end("prune", "choice out of range")
 			}
 			return x
